@@ -19,7 +19,8 @@ covered_any=set()
 percov={}
 for pid in sorted(C.SPECS):
     ctx = C.Ctx(pid)
-    for title, fn in C.SPECS[pid]:
+    for entry in C.SPECS[pid]:
+        title, fn = entry[0], entry[1]
         try: fn(ctx)
         except Exception as e: print('EXC', pid, fn.__name__, e)
     percov[pid]=set(ctx.functions)
